@@ -21,7 +21,7 @@ CONSTANTS Libs,        \* the transceiver libraries considered: each a sequence 
                        \*   (configuration, see FeasibilityOps.StageInv); the routes of the services of the batch, one per
                        \*   service; their bidirectional flags AS WRITTEN in the service file (<<>>: the request's); a
                        \*   user-defined spectrum [carrier -> reciprocal transmitter OSNR] for fixed-mode requests (<<>>: none)
-          Carriers,    \* the carriers of the spectrum (the figures of the receiver are per carrier)
+          Carriers,    \* the carriers of the spectrum, named by their frequencies (the figures of the receiver are per carrier)
           LineInv,     \* [baud rate -> reciprocal line GSNR delivered by a pristine path for that group] (carrier c
                        \*   sees LineInv[b] + c: the carriers differ)
           RevMargins   \* margins (worst - thr, micro-dB) the reverse direction may show
@@ -47,7 +47,7 @@ VARIABLES lib,        \* the library of the request's transceiver
           rev,        \* margin observed on the reverse direction (NotRun: not propagated; -Inf: infinite penalty)
           out         \* [sel, block]
 vars == <<lib, stages, routes, flags, si, spectrum, k, revOf, req, pc, explored, curBr, line, rx, last, nUpdates, rev, out>>
-Adds == AddsOf(stages)
+Adds(c) == AddsOf(stages, c)        \* a carrier is identified by its frequency: what a stage contributes may depend on it
 route == routes[k]
 Bidir == IF flags = <<>> THEN req.bidir ELSE flags[k]        \* what THIS service asked for
 \* the transmitter figure of a carrier: its own one in a user-defined spectrum, else the mode's
@@ -90,7 +90,7 @@ Propagate(b) == /\ pc = "explore" /\ b # curBr
                 /\ rx' = [c \in Carriers |-> LineInv[b] + c] /\ last' = 0
                 /\ UNCHANGED <<lib, stages, routes, flags, si, spectrum, k, revOf, req, pc, explored, nUpdates, rev, out>>
 
-Update(i) == /\ rx' = [c \in Carriers |-> Composed(line[c], TxOf(i, c), Adds)]   \* from the LINE figure of the carrier,
+Update(i) == /\ rx' = [c \in Carriers |-> Composed(line[c], TxOf(i, c), Adds(c))]   \* from the LINE figure of the carrier,
                                                                                   \* with the carrier's own transmitter
              /\ last' = i
              /\ nUpdates' = nUpdates + 1
@@ -159,8 +159,9 @@ InfPenaltyAlwaysBlocks == (Done /\ out.block = NoBlock /\ out.sel # 0) => lib[ou
 
 \* the receiver figure is line + tx + each add/drop once, however many updates this receiver has seen; what a stage
 \* contributes is the profile the configuration selects for it (id 0 included), else the first listed of its kind
-\* - per carrier, with the transmitter figure of THAT carrier
-CompositionHolds == last # 0 => \A c \in Carriers : rx[c] = line[c] + TxOf(last, c) + SumSeq(AddsOf(stages))
+\* - per carrier, with the transmitter figure of THAT carrier and, when the profile lists several frequency ranges, the
+\* first listed range that contains THAT carrier
+CompositionHolds == last # 0 => \A c \in Carriers : rx[c] = line[c] + TxOf(last, c) + SumSeq(AddsOf(stages, c))
 \* the threshold a mode is judged against is its required OSNR plus the margin of the DEFAULT SI entry, wherever that
 \* entry is listed
 ThresholdOfDefaultSI == \A i \in DOMAIN lib : lib[i].thr = Threshold(lib[i].osnr, si)
